@@ -59,4 +59,24 @@ CHECKS = {
             'after every notification); only that it fires, and not before the configured time'],
         'probes': ['probe:stop_while_producer_blocked', 'probe:stop_while_consumer_blocked'],
     },
+    'C13': {
+        'families': [['c13:par', 1.0]],
+        'runs': {'quick': 30000, 'thorough': 1500000},
+        'budget': {'quick': 100, 'thorough': 1500},
+        'level': 'exploration',
+        'rule': ('each evaluation is one simulated execution of one parallel-iteration API (pmap, piter_fn, '
+                 'piter, piter_multiplex, MultiplexIterator, iterate_fn(multithread)) with drawn parallelism, '
+                 'buffer size, number and length of input iterators, and one of {no fault, early stop after s '
+                 'outputs via num_steps or maybe_stop, failure of the mapped function/source at one item}, '
+                 'under a seeded schedule. Non-trivial = parallelism > 0, at least one item and more than two '
+                 'context switches; distinct = distinct event-log digests'),
+        'real': REAL_COMMON,
+        'stub': STUB_COMMON,
+        'assumptions': ASSUME_COMMON + [
+            'functions that take the caller\'s pool are given a pool with at least as many workers as tasks '
+            'they submit (fewer workers than tasks deadlocks a two-stage piter by construction)',
+            'for functions taking the caller\'s pool, "threads released" means pool.shutdown(wait=True) '
+            'returns; for MultiplexIterator (owns its pool) it means the pool is shut down and no pool thread is alive'],
+        'probes': ['probe:more_sources_than_pool_threads', 'probe:early_stop_with_queued_enqueue_tasks'],
+    },
 }
